@@ -98,10 +98,10 @@ class GrammarParser:
             self._gettoken()
             a, z = self._parse_rhs()
             self._expect(PythonTokenTypes.OP, ']')
-            # Make it also possible that there is no token and change the
-            # state.
-            a.add_arc(z)
-            return a, z
+            # Make it also possible that there is no token. The states of the
+            # inner rule may be entered or left more than once (think of
+            # ``[NAME+ ',']``), so skipping it needs states of its own.
+            return self._make_skippable(a, z)
         else:
             a, z = self._parse_atom()
             value = self.value
@@ -113,9 +113,15 @@ class GrammarParser:
             if value == "+":
                 return a, z
             else:
-                # The end state is the same as the beginning, nothing must
-                # change.
-                return a, a
+                return self._make_skippable(a, z)
+
+    def _make_skippable(self, a, z):
+        aa = NFAState(self._current_rule_name)
+        zz = NFAState(self._current_rule_name)
+        aa.add_arc(a)
+        aa.add_arc(zz)
+        z.add_arc(zz)
+        return aa, zz
 
     def _parse_atom(self):
         # atom: '(' rhs ')' | NAME | STRING
